@@ -25,7 +25,7 @@ MAXCP = 0x110000
 BOUNDARY = [0, 8, 9, 10, 11, 12, 13, 14, 31, 32, 126, 127, 128, 159, 160,
             255, 256, 0x7FF, 0x800, 0xD7FF, 0xD800, 0xDFFF, 0xE000, 0xFFFF,
             0x10000, 0x10FFFF, 0x85, 0x2028, 0xA0, 0x1F, 0x1C, 0x7E, 0x7F,
-            0x80, 0x9F, 0xFF, 0x100]
+            0x80, 0x9F, 0xFF, 0x100, 0xFEFF, 0xFFFE, 0x200B]
 
 
 def spec_allowed(config, c):
@@ -153,7 +153,9 @@ class C15(Property):
                        "probe.table-compared",
                        "probe.fault-on-later-line-of-multiline-token",
                        "probe.route:grammar", "probe.route:decoder",
-                       "probe.route:both"]
+                       "probe.route:both", "probe.route:bytes",
+                       "probe.route:binary-stream",
+                       "probe.fault-at-first-character"]
 
     # ---- one explicit case
     def execute_case(self, case, out=None):
@@ -224,7 +226,8 @@ class C15(Property):
                 import re
                 doc = getattr(e, "doc", None)
                 nodash = re.sub("-[\n\r\f][ \t\n\r\v\f]*", "", text)
-                ok_doc = doc == text or (route != "parser" and doc == nodash)
+                ok_doc = doc == text or (
+                    route in ("grammar", "decoder", "both") and doc == nodash)
                 pos = getattr(e, "pos", None)
                 if not ok_doc:
                     viol("error-doc", "e.doc is not the text", config)
@@ -333,6 +336,12 @@ class C15(Property):
                         [0, 1, 2])), c, rng.choice(["insert", "replace"])))
                 out.inc("probe.fault-after-dash-continuation")
                 break
+        # the very first character of the text (a byte order mark, typically)
+        if rng.random() < 0.5:
+            jobs.append((segs, spans[0][0], 0,
+                         rng.choice([0xFEFF, 0xFEFF, 0xFFFE, 0x7F, 0x80, 0xE9,
+                                     0x20AC, 0]), "insert"))
+            out.inc("probe.fault-at-first-character")
         if tier == "thorough":
             tsegs = tiny_label(rng)
             t0, tspans = layout(tsegs)
@@ -359,7 +368,8 @@ class C15(Property):
                     "mode": mode,
                     "configs": ["PVL", "ODL", "PDS3", "default"],
                     "route": rng.choice(["parser", "parser", "grammar",
-                                         "decoder", "both"])}
+                                         "decoder", "both", "bytes",
+                                         "binary-stream"])}
             vs, nt = self.execute_case(case, out)
             out.violations.extend(vs)
             if nt:
